@@ -1393,10 +1393,12 @@ package engine
 //@ -- the parser's entry point, declared only so that ReadTerm can name its results (bind); nothing is assumed about it:
 //@ -- no ensures, no modifies (the heap is havocked at its call sites, as for any unknown callee)
 //@ func ReadTerm
-//@   property C19
+//@   property C19 C18
 //@   requires[stream-terms-and-aliases-name-streams-that-exist] streamsValid(vm, env, streamOrAlias)
 //@   requires vm != nil
 //@   nosafety
+//@   bind np = NewParser#1
+//@   at-call (*Parser).Term requires[the-term-is-read-by-the-parser-made-for-this-vm-with-the-vm-s-own-operator-table] called(np) && a0 == np && a0.operators == vm.operators
 //@   bind s, serr = stream#1
 //@   bind t, perr = (*Parser).Term#1
 //@   bind uerr = (*Stream).UnreadRune#1
@@ -1584,10 +1586,11 @@ package engine
 //@   ensures[otherwise-one-term-per-argument-is-queued] result == nil ==> len(p.args) == len(args)
 
 //@ func (*Parser).term0Atom
-//@   property C15
+//@   property C15 C18
 //@   requires p != nil
 //@   safety only idx
 //@   checks only idx at-store at-store-missing typeinv
+//@   at-call (*operators).defined requires[an-atom-operand-is-refused-as-an-operator-according-to-the-parser-s-own-table] a0 == &p.operators && local(t, Term) is Atom && a1 == (local(t, Term) as Atom)
 //@   at-store Parser.args requires[a-placeholder-takes-the-first-remaining-argument] target == p && len(p.args) > 0 && local(t, Term) == p.args[0]
 //@   at-store Parser.args requires[the-other-arguments-remain-in-order] target == p && len(p.args) > 0 && v == p.args[1:]
 
@@ -1757,8 +1760,9 @@ package engine
 //@   property C05
 //@   modifies nothing
 //@ func operatorSpecifier.term
-//@   property C05
+//@   property C05 C18
 //@   modifies nothing
+//@   ensures[the-atom-of-the-specifier] result is Atom && (result as Atom) == specAtom(s)
 
 //@ -- ring buffers of the lexer and the parser: indices stay inside the four-element array
 //@ func (*runeRingBuffer).put
@@ -2230,8 +2234,11 @@ package engine
 //@ -- the per-term loop of a load (parsing, expansion, directives): assumed not to touch the procedure table
 //@ -- ("side-effect-free directives" of the property statement) and to keep the text's invariants
 //@ func (*VM).compile
-//@   property C20 C15
+//@   property C20 C15 C18
 //@   assumed-post
+//@   bind np = NewParser#1
+//@   at-call NewParser requires[the-text-is-read-by-a-parser-made-for-this-vm-hence-with-its-operator-table] a0 == vm
+//@   at-call (*Parser).Term requires[every-term-of-the-text-is-read-by-that-parser] called(np) && a0 == np
 //@   checks only at-call at-call-missing maintains nok
 //@   nosafety
 //@   modifies heap
@@ -2285,9 +2292,10 @@ package engine
 
 //@ -- named so that its results can be bound in VM.compile; nothing is claimed about it (any result, any effect)
 //@ func (*VM).Compile
-//@   property C13 C20 C15
+//@   property C13 C20 C15 C18
 //@   requires vm != nil
 //@   nosafety
+//@   at-call (*VM).compile requires[the-text-is-compiled-by-this-vm-hence-read-with-its-operator-table] a0 == vm
 //@   bind cerr = (*VM).compile#1
 //@   bind ferr = (*text).flush#1
 //@   at-call (*VM).compile#1 requires[the-text-and-the-arguments-are-handed-on-unchanged] a0 == vm && a1 == ctx && a3 == s && a4 == args
@@ -2313,9 +2321,15 @@ package engine
 //@   ensures[a-load-without-error-reports-none] cerr == nil && called(ferr) && ferr == nil && !(called(gerr) && (gerr != nil || !gok)) ==> result == nil
 
 //@ func WriteTerm
-//@   trusted
+//@   property C18
+//@   assumed-post
+//@   checks only at-store at-store-missing at-call at-call-missing inv-entry inv-keep
+//@   nosafety
 //@   modifies heap
 //@   ensures result != nil
+//@   at-store WriteOptions.ops requires[terms-are-written-under-the-vm-s-own-operator-table] v == vm.operators
+//@   loop 1 invariant[no-write-option-replaces-the-operator-table] opts.ops == vm.operators
+//@   at-call Term.WriteTerm requires[the-term-is-written-with-the-options-that-carry-the-vm-s-own-operator-table] a2 == &opts && a2.ops == vm.operators
 
 //@ func (*clause).varOffset
 //@   property C10
@@ -2843,10 +2857,11 @@ package engine
 //@   modifies nothing
 
 //@ func (*VM).ensureLoaded
-//@   property C05 C13 C20
+//@   property C05 C13 C20 C18
 //@   requires vm != nil
 //@   nosafety
 //@   trusted-frame
+//@   at-call (*VM).Compile requires[the-file-is-loaded-into-this-vm-hence-read-with-its-operator-table] a0 == vm
 //@   bind f, b, oerr = (*VM).open#1
 //@   bind cerr = (*VM).Compile#1
 //@   at-call (*VM).Compile#1 requires[a-file-is-marked-while-it-is-being-loaded-so-that-it-is-not-loaded-recursively] has(vm.loaded, f)
@@ -2959,10 +2974,13 @@ package engine
 //@   at-call dynamic requires[the-aggregator-given-makes-the-result-from-the-group-s-instances-under-the-bindings-of-the-group-s-witnesses] fn == agg && a0 == tList && a1 == local(env, *Env)
 
 //@ func (*VM).directive
-//@   property C13 C20
+//@   property C13 C20 C18
 //@   nosafety
 //@   trusted-frame
 //@   checks only post at-call at-call-missing at-store at-store-missing
+//@   at-call (*VM).compile requires[an-included-text-is-read-by-this-vm-into-the-text-being-loaded] a0 == vm && a2 == text
+//@   at-call (*VM).ensureLoaded requires[a-file-named-by-a-directive-is-loaded-into-this-vm] a0 == vm
+//@   at-call Call requires[a-directive-is-run-by-this-vm-so-op-3-as-a-directive-updates-the-table-the-text-is-read-with] a0 == vm && a1 == d
 //@   bind dok, derr = (*Promise).Force#1
 //@   ensures[an-error-or-a-cancellation-of-a-directive-is-reported] called(derr) && derr != nil ==> result == derr
 //@   -- c20init additions
